@@ -2,7 +2,7 @@
 declared type of MC_vars' TypeList (plus d<k> with a schema default and a FIELD
 directive @p<k>(a: T_k)); resolvers / directive hooks record the argument dictionary."""
 import base
-from base import main_loop, unique_schema_name
+from base import main_loop, unique_schema_name, snapshot_and_scribble
 import render
 import tokens
 
@@ -72,6 +72,7 @@ class InputWorld:
             q.append("  d%d(a: %s = %s): String" % (i, render.typeref(ty), lit_text(self.goods[i - 1]["lit"])))
             sdl.append("directive @p%d(a: %s) on FIELD" % (i, render.typeref(ty)))
         sdl.append("type Query {\n%s\n}" % "\n".join(q))
+        sdl.append("type Subscription {\n%s\n}" % "\n".join("  u%d(a: %s): String" % (i, render.typeref(ty)) for i, ty in enumerate(self.types, 1)))
         self.sdl = "\n".join(sdl)
 
         @t.Resolver("Query.s", schema_name=self.sn)
@@ -81,19 +82,28 @@ class InputWorld:
             def mk(i):
                 @t.Resolver("Query.e%d" % i, schema_name=self.sn)
                 async def r(parent, args, ctx, info):
-                    w.calls.append(("e%d" % i, info.path.as_list()[-1], dict(args)))
+                    w.calls.append(("e%d" % i, info.path.as_list()[-1], snapshot_and_scribble(args)))
                     return "ok"
 
                 @t.Resolver("Query.d%d" % i, schema_name=self.sn)
                 async def r2(parent, args, ctx, info):
-                    w.calls.append(("d%d" % i, info.path.as_list()[-1], dict(args)))
+                    w.calls.append(("d%d" % i, info.path.as_list()[-1], snapshot_and_scribble(args)))
                     return "ok"
 
                 @t.Directive("p%d" % i, schema_name=self.sn)
                 class P:
                     async def on_field_execution(self, directive_args, next_resolver, parent_result, args, ctx, info):
-                        w.dcalls.append(("p%d" % i, dict(directive_args)))
+                        w.dcalls.append(("p%d" % i, snapshot_and_scribble(directive_args)))
                         return await next_resolver(parent_result, args, ctx, info)
+                @t.Subscription("Subscription.u%d" % i, schema_name=self.sn)
+                async def src(parent, args, ctx, info):
+                    w.calls.append(("u%d-source" % i, info.path.as_list()[-1], snapshot_and_scribble(args)))
+                    yield {"u%d" % i: "ev"}
+
+                @t.Resolver("Subscription.u%d" % i, schema_name=self.sn)
+                async def r3(parent, args, ctx, info):
+                    w.calls.append(("u%d" % i, info.path.as_list()[-1], snapshot_and_scribble(args)))
+                    return "ok"
             mk(i)
         self.eng = main_loop().run(t.create_engine(self.sdl, schema_name=self.sn))
 
@@ -104,6 +114,28 @@ class InputWorld:
             return main_loop().run(self.eng.execute(query, variables=variables))
         except BaseException as e:
             return {"__raised__": repr(e)}
+
+
+def _run_sub(self, query, variables=None):
+    """subscribe, take the first response, close the stream"""
+    self.calls = []
+    self.dcalls = []
+
+    async def first():
+        agen = self.eng.subscribe(query, variables=variables)
+        try:
+            return await agen.__anext__()
+        except StopAsyncIteration:
+            return {"__ended__": True}
+        finally:
+            await agen.aclose()
+    try:
+        return main_loop().run(first())
+    except BaseException as e:
+        return {"__raised__": repr(e)}
+
+
+InputWorld.run_sub = _run_sub
 
 
 def expected_args(args, k=0):
